@@ -66,7 +66,7 @@ struct RefSong
                     if(nib == 0x9 && e.d2 == 0) nib = 0x8;
                     x.kind = (uint8_t)nib; x.key = keyChannel(nib, e.ch, e.d1, d2);
                     uint32_t nk = ((uint32_t)e.ch << 8) | e.d1;
-                    if(nib == 0x8) { if(on.count(nk)) { x.soundingOff = true; on.erase(nk); } onThisTick.erase(nk); }
+                    if(nib == 0x8) { if(on.count(nk)) { x.soundingOff = true; on.erase(nk); } else onThisTick.erase(nk); }   // a sounding-note off precedes this tick's note-ons, so it does not cancel them
                     if(nib == 0x9) onThisTick.insert(nk);
                 }
                 tracks[tk].push_back(x);
